@@ -2,6 +2,8 @@ mod edit;
 mod fixtures;
 mod gen;
 mod gencomp;
+mod gprog;
+mod interp;
 mod props;
 mod rng;
 mod runner;
@@ -92,6 +94,49 @@ fn main() {
                 }
             }
             println!("rejects {}/{}", rej, n);
+        }
+        "gprog" => {
+            let seed: u64 = args[2].parse().unwrap();
+            let n: u64 = args[3].parse().unwrap();
+            let mut rej = 0;
+            for idx in 0..n {
+                let mut r = rng::Rng::for_case(seed, "gprog", idx);
+                let p = gprog::generate(&mut r);
+                if let Err(e) = sym::validate(&p.bytes) {
+                    rej += 1;
+                    if rej <= 5 {
+                        println!("idx {} INVALID {}", idx, e);
+                    }
+                }
+                if n == 1 {
+                    println!("{}", sym::print_text(&p.bytes).unwrap_or_else(|e| format!("print error {}", e)));
+                }
+            }
+            println!("rejects {}/{}", rej, n);
+        }
+        "hex2wat" => {
+            // reads a hex string on stdin, prints the wat with one instruction per line, numbered per function
+            let mut h = String::new();
+            std::io::Read::read_to_string(&mut std::io::stdin(), &mut h).unwrap();
+            let bytes = props::c03::hex_decode(h.trim()).expect("hex");
+            match sym::decode(&bytes) {
+                Ok(raw) => {
+                    for (k, f) in raw.funcs.iter().enumerate() {
+                        println!("== function {} ({} ops)", raw.n_imp_funcs as usize + k, f.ops.len());
+                        let mut depth = 0usize;
+                        for (i, op) in f.ops.iter().enumerate() {
+                            if matches!(op.name.as_str(), "End" | "Else") {
+                                depth = depth.saturating_sub(1);
+                            }
+                            println!("{:4} {}{} {}", i, "  ".repeat(depth), op.name, op.bytes.iter().skip(1).map(|b| format!("{:02x}", b)).collect::<String>());
+                            if matches!(op.name.as_str(), "Block" | "Loop" | "If" | "Else" | "TryTable") {
+                                depth += 1;
+                            }
+                        }
+                    }
+                }
+                Err(e) => println!("decode error {}", e),
+            }
         }
         "genstats" => {
             // how often the generator is rejected, per profile
